@@ -386,6 +386,7 @@ type SchedPackArg struct {
 	Expected []string   `json:"expected"` // solo outputs (from fresh processes)
 	Bound    int        `json:"bound"`
 	MaxExec  int        `json:"max_exec"`
+	PreFail  *PackStep  `json:"pre_fail,omitempty"` // history: this Pack ran first in the process and its writer failed in the middle of a file body
 }
 
 func schedPackHandler(raw json.RawMessage) (any, error) {
@@ -396,6 +397,22 @@ func schedPackHandler(raw json.RawMessage) (any, error) {
 	st := &schedStats{BoundDone: arg.Bound}
 	base := filepath.Join(core.ArenaRoot(), fmt.Sprintf("schedpack-%d-%d", os.Getuid(), os.Getpid()))
 	defer core.RemoveArena(base)
+	preFail := func() {
+		// repeated before every execution: what a failed call leaves behind may be short-lived
+		// (a sync.Pool is emptied by the garbage collector)
+		if arg.PreFail == nil {
+			return
+		}
+		W := filepath.Join(base, "pre", "W")
+		if _, err := os.Stat(W); err != nil {
+			os.MkdirAll(W, 0777)
+			prepPackStep(W, *arg.PreFail)
+		}
+		func() {
+			defer func() { recover() }()
+			newPackerFor(*arg.PreFail).Pack(filepath.Join(W, "src"), &failAfterWriter{n: 60000})
+		}()
+	}
 	run := func(choices []int) (vsync.Result, string, string) {
 		outs := make([]string, len(arg.Steps))
 		var fns []func()
@@ -410,6 +427,7 @@ func schedPackHandler(raw json.RawMessage) (any, error) {
 			prepPackStep(W, stp)
 			fns = append(fns, func() { outs[i] = packWith(shared, W, stp) })
 		}
+		preFail()
 		res := vsync.Run(fns, choices)
 		viol := ""
 		for i := range outs {
@@ -507,6 +525,7 @@ func raceHandler(raw json.RawMessage) (any, error) {
 }
 
 func init() {
+	writerHook = func() { vsync.Point("writer") }
 	core.Register("schedbuild", schedBuildHandler)
 	core.Register("schedpack", schedPackHandler)
 	core.Register("racebody", raceHandler)
